@@ -162,9 +162,21 @@ def replay(r, tier, seed):
 
 
 def bounded(tier, seed):
-    if tier != 'thorough':
-        return []
     from .common import run_runtime
+    if tier != 'thorough':
+        # floating point is outside the proof (reals): every quick run at
+        # least exercises unions whose volumes are far outside the range of
+        # exp() - no operation may raise there either
+        rt = run_runtime('check_c13.py', [3, 'scale'], timeout=600)
+        viol = [dict(id='extreme_volumes', **rt)] if rt.get('found') else []
+        return [dict(name='C13/bounded/extreme_volumes',
+                     what='operation words up to length 3 over {split, trim, '
+                          'sample} on unions at scale 1e-110 and 1e+110 (log '
+                          'volumes beyond the range of exp): no raise, '
+                          'records consistent',
+                     bound='2 point sets, length <= 3',
+                     observed=rt.get('observed'), error=rt.get('error'),
+                     violations=viol)]
     rt = run_runtime('check_c13.py', [3], timeout=1500)
     viol = [dict(id='operation_words', **rt)] if rt.get('found') else []
     return [dict(name='C13/bounded/operation_words',
